@@ -90,7 +90,7 @@ def verify_function(src, con, models, axioms=(), prefix=None, prune=True):
         if kind == RET:
             c1 = Ctx(args, entry_heap, s1.heap, res=pay, st=s1)
             try:
-                ens = con.ensures(c1)
+                ens = getattr(con, '_verify_ensures', con.ensures)(c1)
             except OutOfSubset as ex:
                 return dict(obligations=[], paths=0, error=str(ex), meta=meta)
             for name, cl in ens:
@@ -174,37 +174,41 @@ def _keywords(name):
 
 
 def discharge(ob, timeout_ms=10000, want_model=True):
-    """-> dict(verdict 'unsat'|'sat'|'unknown', time_s, model).  Ladder on unknown (dropping
-    hypotheses is always sound; a 'sat' obtained after dropping hypotheses is NOT a counterexample)."""
-    r, dt, s = _check(ob.hyps, ob.goal, timeout_ms)
-    tried = ["full"]
-    if r == z3.unknown:
-        names = ob.meta.get("hyp_names") or [None] * len(ob.hyps)
-        kw = _keywords(ob.name)
-        keep = []
-        for h, n in zip(ob.hyps, names):
-            quantified = z3.is_quantifier(h) or (z3.is_app(h) and any(z3.is_quantifier(c) for c in h.children()))
-            if not quantified or n is None or kw in n or "bridge" in n or "append-only" in n or n in ("valid_channel",):
-                keep.append(h)
-        if len(keep) < len(ob.hyps):
-            r2, dt2, s2 = _check(keep, ob.goal, timeout_ms)
-            tried.append("sliced")
-            dt += dt2
-            if r2 == z3.unsat:
-                r, s = r2, s2
-        if r == z3.unknown:
-            r3, dt3, s3 = _check(ob.hyps, ob.goal, timeout_ms, seed=7)
-            tried.append("seed7")
-            dt += dt3
-            if r3 != z3.unknown:
-                r, s = r3, s3
-    out = {"verdict": str(r), "time_s": round(dt, 4), "tried": tried}
+    """-> dict(verdict 'unsat'|'sat'|'unknown', time_s, model).  Ladder on unknown (dropping hypotheses is
+    always sound; only a 'sat' of the *full* query is a counter-model)."""
+    names = ob.meta.get("hyp_names") or [None] * len(ob.hyps)
+    kw = _keywords(ob.name)
+    qf = [h for h in ob.hyps if not z3.is_quantifier(h)]
+    sliced = []
+    for h, n in zip(ob.hyps, names):
+        if not z3.is_quantifier(h) or n is None or kw in n or "bridge" in n or "append-only" in n or n in ("valid_channel", "spec-def"):
+            sliced.append(h)
+    ladder = [("full", ob.hyps, min(4000, timeout_ms), 0), ("quantifier-free-hyps", qf, timeout_ms, 0), ("sliced", sliced, timeout_ms, 0),
+              ("full-long", ob.hyps, 3 * timeout_ms, 0), ("seed7", ob.hyps, 3 * timeout_ms, 7)]
+    tried, total = [], 0.0
+    r, s = z3.unknown, None
+    full_sat = None
+    for label, hyps, to, seed in ladder:
+        if label in ("quantifier-free-hyps", "sliced") and len(hyps) == len(ob.hyps):
+            continue
+        r1, dt, s1 = _check(hyps, ob.goal, to, seed)
+        tried.append(label)
+        total += dt
+        if r1 == z3.unsat:
+            r, s = r1, s1
+            break
+        if r1 == z3.sat and label in ("full", "full-long", "seed7"):
+            r, s = r1, s1
+            break
+        if s is None or label.startswith("full"):
+            s = s1
+    out = {"verdict": str(r), "time_s": round(total, 4), "tried": tried}
     if r == z3.sat and want_model:
         m = s.model()
         out["model"] = {str(d): str(m[d]) for d in m.decls() if d.arity() == 0}
         out["model_obj"] = m
     if r == z3.unknown:
-        out["reason"] = s.reason_unknown()
+        out["reason"] = s.reason_unknown() if s is not None else ""
     out["solver"] = s
     return out
 
